@@ -48,10 +48,17 @@ RULE = ('(a) random observations of C02 (3-16 dumps) x prior histories of 0-5 se
         'random order, to katdal.concatdata.ConcatenatedDataSet; a case is one concatenation (structure: run-on '
         'index sensors, numbering, one scan / compscan / target per dump) or one (concatenation, prior history on '
         'the whole, iterator); non-trivial when the concatenation has at least three scans and a part carried a '
-        'selection.')
+        'selection. (d) random observations of C02 x prior histories of 0-3 calls x generator x loop body of 0-2 generated '
+        'select() calls (class fb: frequency / corrprod / weights / flags keywords with reset in {\'\', auto, F, B, FB}; class '
+        'time: one time keyword with reset=\'\'; class none) x break point (never, or item 0 / 1 / 2 / 5 / 7, then generator '
+        'closed / deleted / kept alive), also once per real data set of (b); non-trivial when at least two items are selected and '
+        'the body selects or the loop is left early. (e) 2-3 synthetic v3 (or v2) files with different start times opened with '
+        'katdal.open([...]) in shuffled order; structure clauses of (c) + 2 iterator cases each.')
 ASSUMPTIONS = ['single spectral window / subarray; names cross the wire as integer ids (as in C02)',
-               'early exit from the generator (break) is excluded: the docstring promises the restore only on exhaustion',
-               'the loop body does not call select() itself other than through a nested generator',
+               'early exit from the generator (break / close / garbage collection): the docstring promises the restore only on '
+               'exhaustion; what is left is the selection of the current item (C03_abandoned) - checked as such',
+               'a loop body that calls select() is in the domain only if it adds no time criterion (C03_selecting_body); bodies '
+               'adding a time criterion are compared with the model only (tie), their leak is not reported',
                'the categorical sensors handed to the segmentation pipeline are the ones produced by the real '
                'sensor_to_categorical (C10) on the written events; the pipeline after that point is modelled',
                'concatenations: the parts are data sets of one format class with one dump period on a common dump grid, '
@@ -293,6 +300,10 @@ def run_iter_case(ctx, ob, history, mode, cid, note=True, extra=None, sig_prefix
     ctx.count('iter=%s%s' % (outer, ('/' + inner) if inner else ''))
     ctx.count('history=' + hcls)
     ctx.count('yields', len(ys))
+    nsel0 = sum(before['tk'])
+    ctx.count('prior_selection=%s' % ('empty' if nsel0 == 0 else 'all' if nsel0 == len(before['tk']) else
+                                      'single_dump' if nsel0 == 1 else 'partial'))
+    ctx.count('items=%s' % (len(ys) if len(ys) < 2 else '2+'))
     ok = compare_items(ctx, ob, ys, model[1], spec, before, outer, inner, hcls, case, prefix=sig_prefix)
     if ok and inner:
         for y, m, s in zip(ys, model[1], spec):
@@ -426,7 +437,8 @@ def run_body_case(ctx, ob, history, outer, cls, body, brk, how, cid, note=True, 
             return
     ctx.traces_validated += 1
     ctx.count('body=%s' % cls)
-    ctx.count('abandoned=%s' % (how if brk is not None else 'no'))
+    ctx.count('abandoned=%s' % ((how if ab is not None else 'beyond_last_item') if brk is not None else 'no'))
+    ctx.count('body_calls=%d' % len(body))
     m_ys, m_ab, m_final = (model[1], None, model[2]) if brk is None else (model[1], model[2], model[3])
     # ---- tie: complete iterations
     if [y['index'] for y in ys] != [m[0] for m in m_ys]:
